@@ -73,7 +73,19 @@ type cfTarget struct {
 	} `json:"goarch_row"`
 }
 
+// auditMacroOfGoarch: the kernel's audit architecture of a Linux port, by GOARCH (names of linux/audit.h;
+// the same hand-written list as Proofs/C19.lean auditMacroOfGoarch).
+var auditMacroOfGoarch = map[string]string{"amd64": "AUDIT_ARCH_X86_64", "386": "AUDIT_ARCH_I386", "arm": "AUDIT_ARCH_ARM", "arm64": "AUDIT_ARCH_AARCH64",
+	"riscv64": "AUDIT_ARCH_RISCV64", "loong64": "AUDIT_ARCH_LOONGARCH64", "ppc64": "AUDIT_ARCH_PPC64", "ppc64le": "AUDIT_ARCH_PPC64LE", "s390x": "AUDIT_ARCH_S390X",
+	"mips": "AUDIT_ARCH_MIPS", "mipsle": "AUDIT_ARCH_MIPSEL", "mips64": "AUDIT_ARCH_MIPS64", "mips64le": "AUDIT_ARCH_MIPSEL64"}
+
 type cfFacts struct {
+	Oracle struct {
+		AuditArch []struct {
+			Name string `json:"name"`
+			Val  uint64 `json:"val"`
+		} `json:"auditArch"`
+	} `json:"oracle"`
 	Targets     []cfTarget `json:"targets"`
 	AuditConsts []struct {
 		Name string `json:"name"`
@@ -301,6 +313,24 @@ func constsCompare(r *runner, f *cfFacts) {
 			}
 		} else if info == nil || len(info.SyscallNames) == 0 {
 			got = "ok-without-table"
+		}
+		if err == nil && info != nil {
+			// whatever resolves for a GOARCH is what Policy.Assemble compiles for on that build target: its audit
+			// identifier must be the kernel's for that port, or the filter's architecture test never matches there
+			if macro, known := auditMacroOfGoarch[t.GOARCH]; known {
+				for _, a := range f.Oracle.AuditArch {
+					if a.Name == macro {
+						req := fmt.Sprintf("K getinfo-audit */%s GetInfo(%s).ID", t.GOARCH, t.GOARCH)
+						r.count(req, true)
+						r.tag("kind:getinfo-audit")
+						if uint64(info.ID) != a.Val {
+							r.mismatch(Mismatch{Case: "getinfo-audit:" + t.GOARCH, Request: req, Go: fmt.Sprintf("%s id=0x%x", info.Name, uint32(info.ID)), Model: fmt.Sprintf("%s=0x%x", macro, a.Val), Key: "consts:getinfo-audit:" + t.GOARCH,
+								FailingInput: fmt.Sprintf("GOARCH %s (targets */%s): arch.GetInfo(%q) — what GetInfo(\"\") evaluates there, so what Policy.Assemble compiles for — returns the %s table with audit id 0x%x; the kernel's %s is 0x%x (linux/audit.h evaluated by gcc): a filter is produced for a target that has no table of its own",
+									t.GOARCH, t.GOARCH, t.GOARCH, info.Name, uint32(info.ID), macro, a.Val)})
+						}
+					}
+				}
+			}
 		}
 		want := "error"
 		if t.GoarchRow.HasKey && t.GoarchRow.HasTable {
